@@ -2,7 +2,7 @@
    (definitions only; the theorems relating it to the model of the code are in
    TemplateProofs.v / BodyProofs.v). *)
 From Coq Require Import List ZArith Bool Lia.
-From TskVerif Require Import Base.Common C16.Model.
+From TskVerif Require Import Base.Common Gen.Generated C16.Model.
 Import ListNotations.
 Open Scope Z_scope.
 
@@ -49,7 +49,7 @@ Definition line_text (contig : bytes) (ploidies : list Z) (id : Z) (s : site_dat
 
 (* the errors a site may raise when it is written *)
 Definition site_error (s : site_data) : bool :=
-  (9 <? zlen (sd_alleles s))
+  (c16_max_alleles <? zlen (sd_alleles s))
   || match sd_sample_mask s with
      | Some m => negb (Nat.eqb (length m) (length (sd_genotypes s)))
      | None => false
